@@ -322,6 +322,14 @@ class Program:
 
     def func(self, qual: str) -> FuncInfo:
         if qual not in self.funcs:
+            # an anchored method the class now inherits (the body moved to a base class with per-class hooks): the inherited function,
+            # analysed with this class as the receiver - what running it on an instance of this class does
+            cq, _, name = qual.rpartition(".")
+            c = self.classes.get(cq)
+            f = self.lookup_method(c, name) if c is not None else None
+            if f is not None and f.cls is not c:
+                self.funcs[qual] = FuncInfo(name=name, qual=qual, module=f.module, node=f.node, cls=c, kind=f.kind)
+                return self.funcs[qual]
             raise AnalysisError(f"anchor function {qual} not found")
         return self.funcs[qual]
 
@@ -677,6 +685,11 @@ class Program:
                 a = F(e.args[0])
                 if isinstance(a, str):
                     return ("struct.Struct", a)          # a precompiled format (hashable constant)
+            if fname in ("operator.itemgetter", "operator.attrgetter") and e.args and not e.keywords:
+                a = tuple(F(x) for x in e.args)
+                if fname.endswith("attrgetter") and not all(isinstance(x, str) for x in a):
+                    raise NotConst("attrgetter of a non-string")
+                return (fname, a)          # a getter object (hashable constant): calling it is indexing / attribute access
             if fname == "range" and 1 <= len(e.args) <= 3 and not e.keywords:
                 a = [F(x) for x in e.args]
                 if all(isinstance(x, int) and not isinstance(x, bool) for x in a) and (len(a) < 3 or a[2] != 0):
